@@ -65,6 +65,7 @@ class LaneOut:
         self.build = 'ok'       # ok | emitted-fail | driver-fail | not-run
         self.log = ''
         self.enc = {}           # i -> hex | ('ERR', text)
+        self.toggled = {}       # i -> {'ENCU': hex with the checksum registry emptied, 'ENCG': hex after it was restored}
         self.dec = {}           # id -> (rem, dumpstr) | ('ERR', text)
         self.reenc = {}         # id -> hex | ('ERR', text)
         self.ckin = {}          # i -> [(name, hex)]
@@ -78,7 +79,10 @@ class LaneOut:
 def write_cases(path, enc_ids, dec_cases):
     with open(path, 'w') as f:
         for i in enc_ids:
-            f.write('E %d\n' % i)
+            if isinstance(i, tuple):    # ('U', i): encode message i with the checksum registry emptied, then again with it restored
+                f.write('%s %d\n' % i)
+            else:
+                f.write('E %d\n' % i)
         for case in dec_cases:
             if len(case) == 3:      # reuse case: decode the first bytes, then the second bytes INTO THE SAME OBJECT
                 cid, a, b = case
@@ -101,6 +105,9 @@ def parse_driver_output(text, out):
             out.enc[int(parts[1])] = parts[2] if len(parts) > 2 else ''
         elif tag == 'ENCERR':
             out.enc[int(parts[1])] = ('ERR', parts[2] if len(parts) > 2 else '')
+        elif tag in ('ENCU', 'ENCG'):
+            v = parts[2] if len(parts) > 2 else ''
+            out.toggled.setdefault(int(parts[1]), {})[tag] = ('ERR', v[4:]) if v.startswith('ERR ') else v
         elif tag == 'CKIN':
             nm, hx = (parts[2].split(' ', 1) + [''])[:2]
             out.ckin.setdefault(int(parts[1]), []).append((nm, hx))
